@@ -336,4 +336,110 @@ theorem foldS_kids (win : Win) : ∀ (l : List KidT) (scr : Screen),
       by_cases hr : (r.any fun p => p.2.2.2.divZero) = true <;> simp [foldS, kidStep, render, hd, hr, ih, applyPaint_append, kidPaint, kidWin]
 
 
+/-! ### the soft-wrap draw loops -/
+
+/-- the text mode of a soft-wrap draw loop as the theorems need it: no ellipsis branch, `row >= Max.Height` -/
+def softM : TextMode :=
+  { hard := false, ell := [], sizeStrict := true, drawStrict := true, ellipsisStyle := none, fill := none, sz := (.sizeW, .sizeH) }
+
+/-- one character of a soft-wrap row: `if col >= Max.Width { break }; s.WriteCell(col, row, cell); col += uint16(char.Width)` -/
+def colStep (maxW row : UInt16) (a : UInt16 × Surface) (ch : Cell) : Step (UInt16 × Surface) :=
+  if a.1 ≥ maxW then .brk a
+  else match writeCell exactA a.2 a.1 row ch with
+    | .error p => .err (.panic p)
+    | .ok s' => .next (a.1 + u16 ch.w, s')
+
+theorem foldS_colStep (maxW row : UInt16) (tw : Bool) : ∀ (line : List Cell) (col : UInt16) (s : Surface),
+    (∃ col' s', foldS (colStep maxW row) line (col, s) = .next (col', s') ∧ drawLine exactA softM maxW row tw line col s = .ok s') ∨
+    (∃ p, foldS (colStep maxW row) line (col, s) = .err (.panic p) ∧ drawLine exactA softM maxW row tw line col s = .error p) := by
+  intro line
+  have hh : softM.hard = false := rfl
+  induction line with
+  | nil => intro col s; exact .inl ⟨col, s, by simp [foldS, drawLine]⟩
+  | cons ch r ih =>
+    intro col s
+    by_cases hg : col ≥ maxW
+    · exact .inl ⟨col, s, by simp [foldS, colStep, drawLine, hg]⟩
+    · cases hw : writeCell exactA s col row ch with
+      | error p => exact .inr ⟨p, by simp [foldS, colStep, drawLine, hg, hw, hh]⟩
+      | ok s' =>
+        rcases ih (col + u16 ch.w) s' with ⟨c', s'', h1, h2⟩ | ⟨p, h1, h2⟩
+        · exact .inl ⟨c', s'', by simp [foldS, colStep, drawLine, hg, hw, hh, h1, h2]⟩
+        · exact .inr ⟨p, by simp [foldS, colStep, drawLine, hg, hw, hh, h1, h2]⟩
+
+/-- one line of a soft-wrap Draw: the row guard with its early `return s, nil`, the row, `row += 1` -/
+def rowStep (f : List Cell → List Cell) (txt : Bool) (maxW maxH : UInt16) (a : Val × UInt16 × Surface) (p : List Cell × List (List Cell)) : Step (Val × UInt16 × Surface) :=
+  if a.2.1 ≥ maxH then .ret (.scanner txt p.2 p.1, a.2.1, a.2.2) (.tup (.surf a.2.2) .nil)
+  else match drawLine exactA softM maxW a.2.1 (tooWide maxW (f p.1)) (f p.1) 0 a.2.2 with
+    | .error e => .err (.panic e)
+    | .ok s' => .next (.scanner txt p.2 p.1, a.2.1 + 1, s')
+
+theorem foldS_rowStep (f : List Cell → List Cell) (txt : Bool) (maxW maxH : UInt16) : ∀ (lines : List (List Cell)) (sc : Val) (row : UInt16) (s : Surface),
+    (∃ sc' row' s', (foldS (rowStep f txt maxW maxH) (scanPairs lines) (sc, row, s) = .next (sc', row', s') ∨
+                     foldS (rowStep f txt maxW maxH) (scanPairs lines) (sc, row, s) = .ret (sc', row', s') (.tup (.surf s') .nil)) ∧
+        drawLines exactA softM maxW maxH (lines.map f) row s = .ok s') ∨
+    (∃ p, foldS (rowStep f txt maxW maxH) (scanPairs lines) (sc, row, s) = .err (.panic p) ∧
+        drawLines exactA softM maxW maxH (lines.map f) row s = .error p) := by
+  intro lines
+  have hh : softM.drawStrict = true := rfl
+  induction lines with
+  | nil => intro sc row s; exact .inl ⟨sc, row, s, .inl (by simp [foldS, scanPairs]), by simp [drawLines]⟩
+  | cons l r ih =>
+    intro sc row s
+    by_cases hg : row ≥ maxH
+    · exact .inl ⟨.scanner txt r l, row, s, .inr (by simp [foldS, scanPairs, rowStep, hg]), by simp [drawLines, hGuard, hh, hg]⟩
+    · cases hd : drawLine exactA softM maxW row (tooWide maxW (f l)) (f l) 0 s with
+      | error p => exact .inr ⟨p, by simp [foldS, scanPairs, rowStep, hg, hd], by simp [drawLines, hGuard, hh, hg, hd]⟩
+      | ok s' =>
+        rcases ih (.scanner txt r l) (row + 1) s' with ⟨sc', row', s'', h1, h2⟩ | ⟨p, h1, h2⟩
+        · refine .inl ⟨sc', row', s'', ?_, ?_⟩
+          · simpa [foldS, scanPairs, rowStep, hg, hd] using h1
+          · simp [drawLines, hGuard, hh, hg, hd, h2]
+        · refine .inr ⟨p, ?_, ?_⟩
+          · simpa [foldS, scanPairs, rowStep, hg, hd] using h1
+          · simp [drawLines, hGuard, hh, hg, hd, h2]
+
+/-- `vaxis.Cell{Character: char, Style: t.Style}` -/
+def restyle (st : Nat) (ch : Cell) : Cell := { g := ch.g, w := ch.w, st := st }
+
+theorem foldS_map {α β γ : Type} (g : α → γ → Step α) (f : β → γ) : ∀ (l : List β) (a : α),
+    foldS (fun a b => g a (f b)) l a = foldS g (l.map f) a := by
+  intro l
+  induction l with
+  | nil => intro a; rfl
+  | cons b r ih => intro a; simp only [foldS, List.map_cons]; cases g a (f b) <;> simp [ih]
+
+
+/-- a soft-wrap row does not look at the ellipsis condition, its style or the size arguments of the mode -/
+theorem drawLine_soft_congr (m m' : TextMode) (h : m.hard = false) (h' : m'.hard = false) (maxW row : UInt16) (tw : Bool) :
+    ∀ (line : List Cell) (col : UInt16) (s : Surface), drawLine exactA m maxW row tw line col s = drawLine exactA m' maxW row tw line col s := by
+  intro line
+  induction line with
+  | nil => intro col s; simp [drawLine]
+  | cons ch r ih =>
+    intro col s
+    simp only [drawLine, h, h', Bool.false_and]
+    by_cases hg : col ≥ maxW
+    · simp [hg]
+    · simp only [hg, if_false]
+      cases writeCell exactA s col row ch with
+      | error p => rfl
+      | ok s' => simp [ih]
+
+theorem drawLines_soft_congr (m m' : TextMode) (h : m.hard = false) (h' : m'.hard = false) (hs : m.drawStrict = m'.drawStrict)
+    (maxW maxH : UInt16) : ∀ (lines : List (List Cell)) (row : UInt16) (s : Surface),
+    drawLines exactA m maxW maxH lines row s = drawLines exactA m' maxW maxH lines row s := by
+  intro lines
+  induction lines with
+  | nil => intro row s; simp [drawLines]
+  | cons l r ih =>
+    intro row s
+    simp only [drawLines, hs, drawLine_soft_congr m m' h h']
+    by_cases hg : hGuard m'.drawStrict row maxH = true
+    · simp [hg]
+    · simp only [hg]
+      cases drawLine exactA m' maxW row (tooWide maxW l) l 0 s with
+      | error p => rfl
+      | ok s' => simp [ih]
+
 end VaxisModel.Lemmas.SurfExec
